@@ -21,6 +21,7 @@ type Event struct {
 	Q    string // mv, ln
 	Rec  bool   // del
 	Data bool   // del
+	Ign  bool   // del: IgnoreRecursiveError
 	// Refused marks, inside a recorded history, a rename the server answered
 	// with an error without changing anything (the reference tree skips it).
 	Refused bool
@@ -29,6 +30,9 @@ type Event struct {
 func (e Event) String() string {
 	switch e.Op {
 	case "del":
+		if e.Ign {
+			return fmt.Sprintf("del %s r%d d%d i1", e.P, b2i(e.Rec), b2i(e.Data))
+		}
 		return fmt.Sprintf("del %s r%d d%d", e.P, b2i(e.Rec), b2i(e.Data))
 	case "mv", "ln":
 		if e.Refused {
@@ -55,7 +59,9 @@ func ParseEvent(s string) (Event, error) {
 	e := Event{Op: f[0], P: f[1]}
 	switch e.Op {
 	case "del":
-		if len(f) != 4 {
+		if len(f) == 5 && f[4] == "i1" {
+			e.Ign = true
+		} else if len(f) != 4 {
 			return e, fmt.Errorf("bad event %q", s)
 		}
 		e.Rec, e.Data = f[2] == "r1", f[3] == "d1"
@@ -204,7 +210,7 @@ func (w *World) Apply(ev Event, step int, linkNext int) Outcome {
 		_, err := w.FS.AppendToEntry(ctx, &filer_pb.AppendToEntryRequest{Directory: dir, EntryName: name, Chunks: []*filer_pb.FileChunk{c}})
 		return Outcome{Err: errOf(err, "")}
 	case "del":
-		resp, err := w.FS.DeleteEntry(ctx, &filer_pb.DeleteEntryRequest{Directory: dir, Name: name, IsDeleteData: ev.Data, IsRecursive: ev.Rec})
+		resp, err := w.FS.DeleteEntry(ctx, &filer_pb.DeleteEntryRequest{Directory: dir, Name: name, IsDeleteData: ev.Data, IsRecursive: ev.Rec, IgnoreRecursiveError: ev.Ign})
 		e2 := ""
 		if resp != nil {
 			e2 = resp.Error
@@ -308,6 +314,14 @@ func (a Alphabet) Menu(st *State) []Event {
 			out = append(out, Event{Op: "del", P: p}, Event{Op: "del", P: p, Data: true})
 			if e != nil && e.Dir {
 				out = append(out, Event{Op: "del", P: p, Rec: true}, Event{Op: "del", P: p, Rec: true, Data: true})
+			}
+			if a.Ops["delign"] {
+				// IgnoreRecursiveError (fs.rm -f, DELETE ?ignoreRecursiveError=true): documented to ignore
+				// errors of sub-folders during a recursive delete, nothing else
+				out = append(out, Event{Op: "del", P: p, Ign: true})
+				if e != nil && e.Dir {
+					out = append(out, Event{Op: "del", P: p, Rec: true, Data: true, Ign: true})
+				}
 			}
 		}
 		if a.Ops["mv"] {
